@@ -1,2 +1,19 @@
-// Package c15 holds the workload and monitor for property C15 (see /verif/DESIGN.md §3).
+// Package c15 holds the workload and monitor for property C15 (see /verif/DESIGN.md §3):
+// "The SOCKS5 and port-forward relays speak the protocol and move bytes intact".
+//
+//	model.go     RFC 1928 reference model: pure function of the client byte prefix
+//	refagent.go  reference Demon for COMMAND_SOCKET (task decoder, callbacks), counter payloads
+//	env.go       rig, operator commands, lanes (one agent + one proxy + one goroutine), socket helpers,
+//	             the job-queue fence (keeps C04's unlocked queue from drowning the observations)
+//	stream.go    one client stream: handshake (lock-step / cut / truncated / pipelined), outcome,
+//	             relay both ways, close from either side
+//	scen.go      scripted multi-socket, reverse-port-forward and operator (add/list/kill/clear) scenarios
+//	conc.go      16 clients x agent callbacks x operators x forwards on one agent's tables
+//	gen.go       the case lists per tier (exhaustive handshake space + seeded random parts)
+//	c15.go       phases, confirmation of deterministic findings, isolated re-runs of
+//	             missing-progress candidates, replay
+//
+// Environment knobs (development only): C15_ONLY=class[,class] restricts the case list,
+// C15_BOUND_MS overrides the progress bound, C15_DEBUG=1 logs candidates and concurrent
+// scenarios to the worker log, C15_NO_QUEUE_FENCE=1 switches the job-queue fence off.
 package c15
